@@ -76,11 +76,16 @@ def parseRegOp (j : Json) : Except String RegOp := do
     pure (.addUnit (← getSArg j "qt") (← getSym j "name") (← getSArg j "unit") (← getFormula j "fb")
       (← getFormula j "tb") (← getSym j "dc"))
   | "cat" =>
-    pure (.addCategory {
+    let a : CatArgs := {
       category := ← getSArg j "c", qtype := ← getOptSym j "qt", validUnits := ← getOptSyms j "vu",
       override := ← getBool j "ov", defaultUnit := ← getOptSym j "du", defaultValue := ← getOptRat j "dv",
       minV := ← getOptRat j "min", maxV := ← getOptRat j "max", minExcl := ← getBool j "minx",
-      maxExcl := ← getBool j "maxx", caption := ← getSym j "cap", fromCat := ← getOptSym j "from" })
+      maxExcl := ← getBool j "maxx", caption := ← getSym j "cap", fromCat := ← getOptSym j "from" }
+    -- explicit `None` for is_min_exclusive / is_max_exclusive / caption (fields present only then)
+    let flag := fun (k : String) => match j.getObjVal? k with | .ok (.bool b) => b | _ => false
+    if flag "minxN" || flag "maxxN" || flag "capN" then
+      pure (.addCategoryN a (flag "minxN") (flag "maxxN") (flag "capN"))
+    else pure (.addCategory a)
   | _ => throw s!"unknown registration kind {k}"
 
 def jEnt (v : Json) : Except String (Sym × Sym × Int) :=
@@ -131,6 +136,11 @@ def parseQuery (j : Json) : Except String Query := do
     let f ← getStr j "f"
     let e2 ← (← getArr j "ents2").toList.mapM jEnt
     pure (.sumd (if f == "add" then .add else .sub) (← getEnts j) e2 (← getRat j "x") (← getRat j "y"))
+  | "defaultValue" => pure (.defaultValue (← getSym j "c"))
+  | "defaultUnit" => pure (.defaultUnit (← getSym j "c"))
+  | "findUnitCase" => pure (.findUnitCase (← getSym j "c") (← getSym j "u"))
+  | "findSimilar" => pure (.findSimilar (← getSym j "u"))
+  | "checkValueFor" => pure (.checkValueFor (← getSym j "c") (← getSym j "u") (← getRat j "x"))
   | "derived" => pure (.derived (← getEnts j))
   | "createDerived" => pure (.createDerived (← getEnts j))
   | _ => throw s!"unknown query {q}"
@@ -139,6 +149,28 @@ def parseCOp (j : Json) : Except String COp := do
   match j.getObjVal? "q" with
   | .ok _ => pure (.query (← parseQuery j))
   | .error _ => pure (.reg (← parseRegOp j))
+
+/-- an arithmetic expression: `["s", c, u, x]`, `["u", u, x]`, `[op, a, b]` with op in mul/div/add/sub (fuel = nesting bound) -/
+def parseVExpr : Nat → Json → Except String VExpr
+  | 0, _ => throw "expression nested too deeply"
+  | fuel + 1, j =>
+    match j with
+    | .arr #[.str "s", c, u, x] => do pure (.scalar (← jSym c) (← jSym u) (← jRat x))
+    | .arr #[.str "u", u, x] => do pure (.scalarU (← jSym u) (← jRat x))
+    | .arr #[.str op, a, b] => do
+      let o ← match op with
+        | "mul" => pure VBin.mul
+        | "div" => pure VBin.div
+        | "add" => pure VBin.add
+        | "sub" => pure VBin.sub
+        | _ => throw s!"unknown operator {op}"
+      pure (.bin o (← parseVExpr fuel a) (← parseVExpr fuel b))
+    | _ => throw "expression expected"
+
+def parseXOp (j : Json) : Except String XOp := do
+  match j.getObjVal? "q" with
+  | .ok (.str "arith") => pure (.arith (← parseVExpr 64 (← j.getObjVal? "e")))
+  | _ => pure (.base (← parseCOp j))
 
 /-! ### encoding -/
 
@@ -262,11 +294,49 @@ def runC : CState → List COp → CState × List Json
     let (s2, js) := runC s1 ops
     (s2, j :: js)
 
+/-- the driver's stand-in for the uninterpreted arithmetic: it answers "what a database built from this registry
+answers"; the harness evaluates that on the real code -/
+def arU (_ : Registry) (_ : VExpr) : Unit := ()
+
+def xoutJ (r : Registry) (op : XOp) : XOut Unit → Json
+  | .val _ => Json.mkObj [("ok", Json.mkObj [("fresh", .bool true)])]
+  | .base o =>
+    match op with
+    | .base cop => coutJ r cop o
+    | .arith _ => Json.null
+
+/-- sessions with arithmetic questions -/
+def runX : CState → List XOp → CState × List Json
+  | s, [] => (s, [])
+  | s, op :: ops =>
+    let (s1, o) := xstep lg arU s op
+    let j := (xoutJ s.reg op o).setObjVal! "changed" (.bool (decide (s1.reg ≠ s.reg)))
+    let (s2, js) := runX s1 ops
+    (s2, j :: js)
+
+/-- a family of `n` databases; every step is addressed to one of them; `others` = the registry of a database
+the step was NOT addressed to changed -/
+def runXN (n : Nat) : (Nat → CState) → List (Nat × XOp) → (Nat → CState) × List Json
+  | s, [] => (s, [])
+  | s, op :: ops =>
+    let (s1, o) := stepN (xstep lg arU) s op
+    let j := (xoutJ (s op.1).reg op.2 o).setObjVal! "changed" (.bool (decide ((s1 op.1).reg ≠ (s op.1).reg)))
+    let j := j.setObjVal! "others" (.bool ((List.range n).any (fun i => i != op.1 && decide ((s1 i).reg ≠ (s i).reg))))
+    let (s2, js) := runXN n s1 ops
+    (s2, j :: js)
+
 def memoJ (m : List ((Sym × Sym) × Bool)) : Json :=
   Json.arr (m.map (fun e => Json.arr #[symJ e.1.1, symJ e.1.2, .bool e.2])).toArray
 
 def cacheJ (m : List ((Option Sym × Sym × Bool) × QObj)) : Json :=
   Json.arr (m.map (fun e => Json.arr #[optJ symJ e.1.1, symJ e.1.2.1, .bool e.1.2.2, symJ e.2.cat, symJ e.2.unit])).toArray
+
+def getNat (j : Json) (k : String) : Except String Nat := do pure (← getInt j k).toNat
+
+def tablesJ (s : CState) : List (String × Json) :=
+  [("memo", memoJ s.memo), ("cache", cacheJ s.cache),
+   ("dcache", Json.arr (s.dcache.map (fun e => Json.arr (e.1.map (fun t =>
+      Json.arr #[symJ t.1, symJ t.2.1, .str (toString t.2.2)])).toArray)).toArray)]
 
 def handle (j : Json) : Except String Json := do
   let op ← getStr j "op"
@@ -278,11 +348,16 @@ def handle (j : Json) : Except String Json := do
     pure (Json.mkObj [("outs", Json.arr outs.toArray), ("reg", regJ r),
       ("answers", Json.arr (qs.map (fun q => ansJ r q (spec lg r q))).toArray)])
   | "chist" =>
-    let ops ← (← getArr j "ops").toList.mapM parseCOp
-    let (s, outs) := runC (CState.fresh Registry.empty) ops
-    pure (Json.mkObj [("outs", Json.arr outs.toArray), ("memo", memoJ s.memo), ("cache", cacheJ s.cache),
-      ("dcache", Json.arr (s.dcache.map (fun e => Json.arr (e.1.map (fun t =>
-        Json.arr #[symJ t.1, symJ t.2.1, .str (toString t.2.2)])).toArray)).toArray)])
+    let ops ← (← getArr j "ops").toList.mapM parseXOp
+    let (s, outs) := runX (CState.fresh Registry.empty) ops
+    pure (Json.mkObj ([("outs", Json.arr outs.toArray)] ++ tablesJ s))
+  | "chistN" =>
+    let n ← getNat j "n"
+    let ops ← (← getArr j "ops").toList.mapM (fun o => do pure ((← getNat o "db"), (← parseXOp o)))
+    if ops.any (fun o => decide (n ≤ o.1)) then throw "database index out of range" else
+    let (s, outs) := runXN n (fun _ => CState.fresh Registry.empty) ops
+    pure (Json.mkObj [("outs", Json.arr outs.toArray),
+      ("dbs", Json.arr ((List.range n).map (fun i => Json.mkObj (tablesJ (s i)))).toArray)])
   | "shipped" =>
     -- `defcat`: every unit that resolves to a default category resolves to a registered category of its own
     -- quantity type (so `Scalar(value, unit)` builds); all units do in the databases filled with categories
